@@ -52,7 +52,7 @@ def run(ctx: Ctx) -> None:
         mag = mag[np.isfinite(x_abs) & (x_abs <= c["absmax"] * 1.5)]
         for (sb, is_default) in sbs:
             R = 1 << sb
-            n = max(24, min(len(mag), (1 << (21 if quick else 23)) // R))
+            n = max(8 if R >= (1 << 19) else 24, min(len(mag), (1 << (21 if quick else 23)) // R))
             # half of the inputs representable (incl. 0 and max), half arbitrary
             mv = mag.view(np.float32).astype(np.float64)
             with np.errstate(divide="ignore"):
